@@ -46,6 +46,8 @@ PER_ANCHOR_DROP = {
  ("io:encodingTask.encode", ">>", "3"): "buffer padding and bit/byte conversions, arithmetic not format",
  ("io:decodingTask.decode", ">>", "3"): "bit/byte conversions",
  ("io:decodingTask.decode", "<<", "3"): "bit/byte conversions",
+ ("io:Reader.readHeader", "<", "63"): "clamp of the in-memory block-count hint (min(n, MAX_CONCURRENCY-1)), scheduling only",
+ ("io:decodingTask.decode", "<", "2048"): "floor of a work-buffer size (max(1.5*block, 2048)), not an acceptance bound",
 }
 out["dropped_census"] = []
 for g in raw["census"]:
@@ -54,6 +56,8 @@ for g in raw["census"]:
         why = None
         if e["op"] in ("!=", "==") and e["value"] == "1262571098":
             pass  # magic number test
+        elif (g["anchor"], e["op"], e["value"]) in PER_ANCHOR_DROP:
+            why = PER_ANCHOR_DROP[(g["anchor"], e["op"], e["value"])]
         elif g["anchor"] in ("io:decodingTask.decode", "io:Reader.readHeader", "io:Writer.writeHeader") and e["op"] in ("<", "==") and e["value"] not in ("0", "1"):
             pass  # acceptance bounds and version tests of the stream parser: which streams of format 6 are accepted is format
         elif e["op"] not in KEEP_OPS:
